@@ -45,6 +45,12 @@ fn observer_action(pidx: usize, rhs: &[Sym]) -> String {
 }
 
 fn grammar_text(g: &RefGrammar, kind: &str, param: bool) -> String {
+    grammar_text_layout(g, kind, param, false)
+}
+
+/// `reopen`: every rule with two or more productions is written in two pieces (`A: p1; ...; A: p2 | p3;`),
+/// so that its productions are not numbered consecutively.
+fn grammar_text_layout(g: &RefGrammar, kind: &str, param: bool, reopen: bool) -> String {
     let mut s = String::new();
     let header = match kind {
         "gpt" => "%grmtools{yacckind: Original(GenericParseTree)}",
@@ -64,7 +70,20 @@ fn grammar_text(g: &RefGrammar, kind: &str, param: bool) -> String {
     // whatever conflicts the grammar has are accepted: the builder is told not to fail on them
     writeln!(s, "%%").ok();
     let mut pidx = 0;
+    // (rule, first production index, one past the last) in the order they are written
+    let mut pieces: Vec<(usize, usize, usize)> = vec![];
     for (r, ps) in g.rules.iter().enumerate() {
+        pieces.push((r, 0, if reopen && ps.len() >= 2 { 1 } else { ps.len() }));
+    }
+    if reopen {
+        for (r, ps) in g.rules.iter().enumerate() {
+            if ps.len() >= 2 {
+                pieces.push((r, 1, ps.len()));
+            }
+        }
+    }
+    for (r, from, to) in pieces {
+        let ps = &g.rules[r][from..to];
         if kind == "grmtools" {
             write!(s, "{} -> String:", g.rule_name(r)).ok();
         } else {
@@ -205,6 +224,23 @@ fn main() {
         if thorough {
             cases.push(mk(&format!("{}_ua", n), g, "useraction", "cpctplus", maxlen));
             cases.push(mk(&format!("{}_gpt", n), g, "gpt", "cpctplus", maxlen));
+        }
+    }
+    // (b') the same observer grammars with every multi-production rule written in two pieces
+    // (productions of one rule are then not numbered consecutively)
+    for (n, g) in fam.iter().filter(|(_, g)| g.rules.iter().any(|ps| ps.len() >= 2) && g.nrules() >= 2) {
+        let pick = n.starts_with("seed") || n.ends_with('0') || n.ends_with('2') || thorough;
+        if !pick {
+            continue;
+        }
+        let maxlen = if g.ntoks <= 3 { 4 } else { 3 };
+        for kind in ["grmtools", "useraction", "gpt"] {
+            if kind != "grmtools" && !thorough && !n.starts_with("seed0") {
+                continue;
+            }
+            let mut c = mk(&format!("{}_reopened_{}", n, kind), g, kind, "cpctplus", maxlen);
+            c.y = grammar_text_layout(g, kind, false, true);
+            cases.push(c);
         }
     }
     // (c) lexer-centred cases: flags, start states, skip rules, non-ASCII names
